@@ -196,3 +196,68 @@ Example C15_ex_stream_claims_from_source :
   MetaPre.exec (Meta_gen.load_rank tt tt) (MetaGenProofs.ex_sx []) (MetaPre.mkM (Some MetaGenProofs.ex_fs) 1 2 4 None) = MetaPre.MErr MetaPre.E_FAIL.
 Proof. repeat split; vm_compute; reflexivity. Qed.
 (* ==== end of block (unit meta) ==== *)
+
+(* ==== system building from source (unit metabuild) ==== *)
+(* The builders of the emulator's system - src/emu/system.c create_thread, create_proc, create_loom and the body of
+   create_system's loop over the streams (emitted as stream_body; `continue` = the end of the body); src/emu/loom.c
+   loom_find_proc, loom_add_proc, loom_load_metadata; src/emu/proc.c proc_find_thread, proc_add_thread, proc_load_metadata -
+   are regenerated into Gen/MetaBuild_gen.v on every run (unit metabuild, statement by statement; prelude
+   Emu/MetaBuildPre.v: the tables under construction ARE the fact tables of MetaDefs.state - DL lists and uthash tables as
+   insertion-ordered lists -, struct loom / proc / thread pointers are handles (NULL, a table entry, or the pending
+   malloc'ed object), a struct stream * is the stream's claims: the gates and loaders of unit meta act on them with the
+   meaning C15_stream_claims_from_source gives them).
+   C15_stream_body_from_source: one run of the generated loop body = one MetaDefs.step_gen add_cpu (same refusals; the
+     same looms, CPUs, processes, app ids, ranks, threads appended in the same order) and fills the stream's lpt slot
+     with ITS loom, process and thread (what system_get_lpt hands to the models);
+   C15_system_build_raw_from_source: folding it over the streams from the empty system = MetaDefs.raw;
+   C15_system_build_from_source: hence MetaDefs.build = finish on the state the generated code built (finish: the sorts,
+     tied by unit cmp_meta, and the final checks of system_init), and a refusal of the generated loop is a refusal of build.
+   Invariant carried: every loom name in the table passed loom_init_begin's '/' test (find_loom precedes the test).
+   Still primitives of the prelude (not translated): find_loom, loom_init_begin (loom.c / system.c), proc_init_begin,
+   thread_init_begin, the accessors proc_get_pid / proc_set_loom / thread_get_tid / thread_set_proc, HASH_FIND_INT /
+   HASH_ADD_INT, DL_APPEND, malloc, is_init (0 while the system is built), the find-or-insert half of load_cpus (hand model
+   add_cpu, as in unit meta); the loop statement itself (MetaBuildGenProofs.run_streams) and system_get_lpt (a look-up in
+   the map stream_data_set fills) are hand-written. *)
+From OV Require Emu.MetaBuildPre Gen.MetaBuild_gen Proofs.MetaBuildGenProofs.
+Module MB.
+Import MetaBuildPre MetaBuildGenProofs.
+
+Theorem C15_stream_body_from_source : forall b s, looms_ok (b_st b) ->
+  match step_gen add_cpu (b_st b) s with
+  | Ok x' => exists b', MetaBuild_gen.stream_body tt s b = ROk (0%Z, b') /\ b_st b' = x' /\
+               b_lpt b' = b_lpt b ++ [lpt_of s] /\ b_data b' = b_data b ++ [(s, length (b_lpt b))]
+  | _ => MetaBuild_gen.stream_body tt s b = RErr E_FAIL
+  end.
+Proof. exact stream_body_from_source. Qed.
+Print Assumptions C15_stream_body_from_source.
+
+Theorem C15_system_build_raw_from_source : forall m,
+  match raw m with
+  | Ok x => exists b, run_streams m b0 = ROk b /\ b_st b = x /\ b_lpt b = map lpt_of m
+  | _ => run_streams m b0 = RErr E_FAIL
+  end.
+Proof. exact system_build_raw_from_source. Qed.
+Print Assumptions C15_system_build_raw_from_source.
+
+Theorem C15_system_build_from_source : forall m,
+  match run_streams m b0 with
+  | ROk b => build m = finish (b_st b) /\ b_lpt b = map lpt_of m
+  | RErr _ => forall sys, build m <> Ok sys
+  end.
+Proof. exact system_build_from_source. Qed.
+Print Assumptions C15_system_build_from_source.
+
+Example C15_ex_build_three :
+  st_of (run_streams [ex_s1; ex_s2; ex_s3] b0) = match raw [ex_s1; ex_s2; ex_s3] with Ok x => Some x | _ => None end /\
+  st_of (run_streams [ex_s1; ex_s2; ex_s3] b0) <> None.
+Proof. exact ex_build_three. Qed.
+Example C15_ex_build_refusals :
+  run_streams [ex_s1; ex_s1] b0 = RErr E_FAIL /\
+  run_streams [ex_s1; mkS [110; 48] 100 102 (Some 2) None None None] b0 = RErr E_FAIL /\
+  run_streams [mkS [110; 47; 48] 100 101 (Some 1) None None None] b0 = RErr E_FAIL.
+Proof. exact ex_build_refusals. Qed.
+Example C15_ex_build_tid_two_procs :
+  st_of (run_streams [ex_s1; mkS [110; 48] 300 101 (Some 1) (Some 1) (Some 2) None] b0) <> None.
+Proof. exact ex_build_tid_two_procs. Qed.
+End MB.
+(* ==== end of block (unit metabuild) ==== *)
